@@ -43,9 +43,6 @@ func (c *Ctx) cbSpec(expandSetState bool) *Spec {
 			if k, st := storeKey(in); strings.HasPrefix(k, cbT) {
 				return "store " + strings.TrimPrefix(k, cbT) + " := " + p.Desc(st.Val, fr)
 			}
-			if r, ok := in.(*ssa.Return); ok && fr != nil && fr.Fn.Name() == "beforeRequest" && len(r.Results) == 1 {
-				return "before-ret:" + p.Desc(r.Results[0], fr)
-			}
 			ci, ok := in.(ssa.CallInstruction)
 			if !ok {
 				return ""
@@ -85,6 +82,12 @@ func (c *Ctx) cbSpec(expandSetState bool) *Spec {
 				return expandSetState
 			}
 			return strings.HasSuffix(fnPkg(callee).Pkg.Path(), "/circuitbreaker") && n != "Counts"
+		},
+		RetLabel: func(callee *ssa.Function) string {
+			if callee.Name() == "beforeRequest" {
+				return "ret:beforeRequest"
+			}
+			return ""
 		},
 		MayPanic: func(site ssa.CallInstruction) bool { return strings.HasPrefix(CalleeName(site), "dyn:func() error") },
 	}
@@ -254,135 +257,15 @@ func checkC07(c *Ctx) {
 		})
 
 	// ---- beforeRequest -------------------------------------------------------------------------
-	c.traceRule("admission-relation", "circuitbreaker.(*CircuitBreaker).beforeRequest", before, c.cbSpec(false),
-		"closed admits, open rejects until nextAttempt<now then moves to half-open with counters zeroed, half-open rejects iff requestCount ≥ maxRequests",
-		func(t *Trace) string {
-			if len(t.Ret) != 1 || t.Ret[0].K == AUnknown {
-				return "undecided: beforeRequest returns an error value that is neither nil nor a package error"
-			}
-			admitted := t.Ret[0].K == ANil
-			// first state test decides the branch (the snapshot read under RLock)
-			st := int64(-1)
-			for _, it := range t.Items {
-				if _, ok := it.Instr.(*ssa.If); !ok {
-					continue
-				}
-				if o, ok := c.condRel(it).Orient(cbT+"state", ""); ok && o.Y == "" && !o.Neq && o.Lo == o.Hi {
-					st = o.Lo
-					break
-				}
-			}
-			var sets []int
-			for i, it := range t.Items {
-				if strings.HasPrefix(it.Label, "setState(") {
-					sets = append(sets, i)
-				}
-			}
-			switch st {
-			case k.closed:
-				if !admitted {
-					return "closed breaker rejects a request"
-				}
-				if len(sets) != 0 {
-					return "closed breaker changes state on admission"
-				}
-				// failure window reset
-				for i, it := range t.Items {
-					if it.Label == "store failureCount := k:0" {
-						r, _, ok := c.findRel(t, "add(fld:"+cbT+"lastFailureTime,fld:"+cbT+"interval)", "now", 0, i)
-						// use the last such test before the store (double check)
-						for j := 0; j < i; j++ {
-							if r2, _, ok2 := c.findRel(t, "add(fld:"+cbT+"lastFailureTime,fld:"+cbT+"interval)", "now", j, j+1); ok2 {
-								r, ok = r2, true
-							}
-						}
-						if !ok || !(r.Lo == negInf && r.Hi == -1) {
-							return "failure window reset not guarded by lastFailure + interval < now: " + r.String()
-						}
-						if lk := t.lastLockBefore(i); lk != "lock:W" {
-							return "failure window reset outside the write lock"
-						}
-					} else if strings.HasPrefix(it.Label, "store ") {
-						return "closed admission modifies " + it.Label
-					}
-				}
-			case k.open:
-				r, _, ok := c.findRel(t, cbT+"nextAttempt", "now", 0, -1)
-				if !ok {
-					return "open breaker never compares nextAttempt with now"
-				}
-				elapsed := r.Lo == negInf && r.Hi == -1
-				if !elapsed && !(r.Lo == 0 && r.Hi == posInf) {
-					return "retry test is not nextAttempt < now: " + r.String()
-				}
-				if !elapsed {
-					if admitted {
-						return "open breaker admits before the timeout elapsed"
-					}
-					if len(sets) != 0 {
-						return "open breaker changes state before the timeout elapsed"
-					}
-					return ""
-				}
-				if !admitted {
-					return "open breaker still rejects after the timeout elapsed"
-				}
-				if len(sets) == 1 {
-					if t.Items[sets[0]].Label != "setState("+itoa(k.half)+")" {
-						return "open breaker leaves Open to a state other than half-open"
-					}
-					if lk := t.lastLockBefore(sets[0]); lk != "lock:W" {
-						return "open→half-open transition outside the write lock"
-					}
-					// double check under the write lock
-					chk := false
-					for j := sets[0] - 1; j >= 0 && t.Items[j].Label != "lock:W"; j-- {
-						if o, ok := c.condRel(t.Items[j]).Orient(cbT+"nextAttempt", "now"); ok && o.Hi == -1 {
-							chk = true
-						}
-					}
-					if !chk {
-						return "open→half-open transition does not re-check nextAttempt < now under the write lock"
-					}
-					if t.Index("store requestCount := k:0", sets[0]) < 0 || t.Index("store successCount := k:0", sets[0]) < 0 {
-						return "entering half-open does not zero requestCount and successCount"
-					}
-				} else if len(sets) > 1 {
-					return "more than one transition on admission"
-				}
-			case k.half:
-				r, _, ok := c.findRel(t, cbT+"requestCount", cbT+"maxRequests", 0, -1)
-				if !ok {
-					return "half-open admission never compares requestCount with maxRequests"
-				}
-				atLimit := r.Lo == 0 && r.Hi == posInf
-				if !atLimit && !(r.Lo == negInf && r.Hi == -1) {
-					return "half-open limit is not requestCount ≥ maxRequests: " + r.String()
-				}
-				if atLimit == admitted {
-					if atLimit {
-						return "half-open breaker admits a request beyond maxRequests"
-					}
-					return "half-open breaker rejects below maxRequests"
-				}
-				if len(sets) != 0 {
-					return "half-open admission changes state"
-				}
-			default:
-				if admitted {
-					return "request admitted in an unknown breaker state"
-				}
-			}
-			return ""
-		})
+	c.admissionRule(k, before)
 
 	// ---- Execute ---------------------------------------------------------------------------------
-	c.traceRule("blocked-means-not-contacted", "circuitbreaker.(*CircuitBreaker).Execute", exec, c.cbSpec(false),
+	c.traceRule("blocked-means-not-contacted", "circuitbreaker.(*CircuitBreaker).Execute", exec, c.cbSpec(true),
 		"fn runs only after beforeRequest returned nil, a rejection returns the error without calling fn, every completed call reports to afterRequest exactly once, panics report failure and are re-raised",
 		func(t *Trace) string {
 			bi := -1
 			for i, it := range t.Items {
-				if strings.HasPrefix(it.Label, "before-ret:") {
+				if strings.HasPrefix(it.Label, "ret:beforeRequest:") {
 					bi = i
 					break
 				}
@@ -390,7 +273,11 @@ func checkC07(c *Ctx) {
 			if bi < 0 {
 				return "beforeRequest is not consulted"
 			}
-			nilRet := t.Items[bi].Label == "before-ret:k:nil"
+			lbl := strings.TrimPrefix(t.Items[bi].Label, "ret:beforeRequest:")
+			if lbl == "?" {
+				return "undecided: beforeRequest returns an error value that is neither nil nor a package error"
+			}
+			nilRet := lbl == "nil"
 			fi := t.Index("call-fn", 0)
 			nAfter := 0
 			var afterLbl string
@@ -429,29 +316,40 @@ func checkC07(c *Ctx) {
 				if !strings.Contains(afterLbl, "== k:nil") {
 					return "outcome reported to afterRequest is not (err == nil): " + afterLbl
 				}
+				if t.Exit != ExitNormal {
+					return "undecided: unexpected panic exit"
+				}
 			}
 			return ""
 		})
 
 	// ---- admission atomicity (E1 check-then-act) ----------------------------------------------------
-	c.traceRule("admission-atomic", "circuitbreaker.(*CircuitBreaker).Execute/requestCount", exec, c.cbSpec(false),
-		"requestCount++ happens in the critical section of the requestCount<maxRequests test that admitted the trial",
+	c.traceRule("admission-atomic", "circuitbreaker.(*CircuitBreaker).Execute/requestCount", exec, c.cbSpec(true),
+		"requestCount++ happens in the critical section of the requestCount<maxRequests test that admitted the trial, and every half-open admission spends one",
 		func(t *Trace) string {
+			spent := 0
 			for i, it := range t.Items {
 				if it.Label != "store requestCount := (fld:"+cbT+"requestCount + k:1)" {
+					if strings.HasPrefix(it.Label, "store requestCount := ") && it.Label != "store requestCount := k:0" {
+						return "trial budget modified by something other than +1 / reset: " + it.Label
+					}
 					continue
 				}
+				spent++
 				// walk back to the start of this critical section
 				admitted := false
 				for j := i - 1; j >= 0; j-- {
 					l := t.Items[j].Label
+					if strings.HasPrefix(l, "unlock:") {
+						break
+					}
 					if strings.HasPrefix(l, "lock:") {
 						if l != "lock:W" {
 							return "half-open trial spent under a read lock"
 						}
 						break
 					}
-					if o, ok := c.condRel(t.Items[j]).Orient(cbT+"requestCount", cbT+"maxRequests"); ok && o.Hi == -1 {
+					if o, ok := c.condRel(t.Items[j]).Orient(cbT+"requestCount", cbT+"maxRequests"); ok && o.Pred == "" && o.Hi == -1 {
 						admitted = true
 					}
 				}
@@ -459,28 +357,14 @@ func checkC07(c *Ctx) {
 					return "trial budget spent in a different critical section than the test that admitted it (two concurrent callers can both pass the test)"
 				}
 			}
-			// and a half-open admission must spend
-			st := int64(-1)
-			for _, it := range t.Items {
-				if o, ok := c.condRel(it).Orient(cbT+"state", ""); ok && o.Y == "" && !o.Neq && o.Lo == o.Hi && o.Pred == "" {
-					st = o.Lo
-					break
-				}
-			}
-			if st == k.half && t.Has("call-fn") && !t.Has("store requestCount := (fld:"+cbT+"requestCount + k:1)") {
-				// allowed only if the state changed in between (the re-test failed)
-				reTest := false
-				seen := 0
-				for _, it := range t.Items {
-					if o, ok := c.condRel(it).Orient(cbT+"state", ""); ok && o.Y == "" && o.Pred == "" {
-						seen++
-						if seen > 1 && (o.Neq || o.Lo != k.half) {
-							reTest = true
-						}
-					}
-				}
-				if !reTest {
+			fi := t.Index("call-fn", 0)
+			if fi >= 0 {
+				sc := c.cbScan(t, fi)
+				if sc.state == k.half && spent == 0 {
 					return "half-open admission does not spend a trial"
+				}
+				if spent > 1 {
+					return "one admission spends more than one trial"
 				}
 			}
 			return ""
@@ -509,9 +393,6 @@ func c07Wiring(c *Ctx) {
 	serve := p.Fn("internal/loadbalancer", "LoadBalancer", "ServeHTTP")
 	spec := &Spec{
 		Event: func(in ssa.Instruction, fr *Frame) string {
-			if r, ok := in.(*ssa.Return); ok && fr != nil && fr.Fn.Name() == "beforeRequest" && len(r.Results) == 1 {
-				return "before-ret:" + p.Desc(r.Results[0], fr)
-			}
 			ci, ok := in.(ssa.CallInstruction)
 			if !ok {
 				return ""
@@ -531,7 +412,13 @@ func c07Wiring(c *Ctx) {
 			return ""
 		},
 		Cond:   p.condMentions("LoadBalancer.circuitBreaker", "ErrCircuitBreakerOpen", "ErrTooManyRequests"),
-		Expand: expandAllHelios("TokenBucketRateLimiter", "afterRequest", "metrics."),
+		Expand: expandAllHelios("TokenBucketRateLimiter", "afterRequest", "recordResult", "metrics."),
+		RetLabel: func(callee *ssa.Function) string {
+			if callee.Name() == "beforeRequest" {
+				return "ret:beforeRequest"
+			}
+			return ""
+		},
 	}
 	c.traceRule("breaker-wiring", "loadbalancer.(*LoadBalancer).ServeHTTP", serve, spec,
 		"with a breaker configured the request is handled only inside Execute after admission; a rejection is answered 503 (open) / 429 (half-open limit) and never reaches a backend",
@@ -554,7 +441,7 @@ func c07Wiring(c *Ctx) {
 			}
 			bi := -1
 			for i, it := range t.Items {
-				if strings.HasPrefix(it.Label, "before-ret:") {
+				if strings.HasPrefix(it.Label, "ret:beforeRequest:") {
 					bi = i
 				}
 			}
@@ -562,7 +449,7 @@ func c07Wiring(c *Ctx) {
 				return ""
 			}
 			lbl := t.Items[bi].Label
-			if lbl == "before-ret:k:nil" {
+			if lbl == "ret:beforeRequest:nil" {
 				return ""
 			}
 			if hi >= 0 || t.Has("proxy") {
@@ -573,7 +460,7 @@ func c07Wiring(c *Ctx) {
 				want = "status:429"
 			}
 			if !t.Has(want) {
-				return "breaker rejection (" + strings.TrimPrefix(lbl, "before-ret:") + ") not answered with " + want
+				return "breaker rejection (" + strings.TrimPrefix(lbl, "ret:beforeRequest:") + ") not answered with " + want
 			}
 			return ""
 		})
@@ -645,31 +532,8 @@ func checkC08(c *Ctx) {
 
 	lockOrder(c)
 
-	// (3),(4) are decided by C07's admission-relation and transition-relation rules; re-run them here
-	before := p.Fn("internal/circuitbreaker", "CircuitBreaker", "beforeRequest")
-	c.traceRule("closed-never-rejects", "circuitbreaker.(*CircuitBreaker).beforeRequest", before, c.cbSpec(false),
-		"closed → nil on every path; open with nextAttempt<now → nil",
-		func(t *Trace) string {
-			st := int64(-1)
-			for _, it := range t.Items {
-				if o, ok := c.condRel(it).Orient(cbT+"state", ""); ok && o.Y == "" && !o.Neq && o.Lo == o.Hi && o.Pred == "" {
-					st = o.Lo
-					break
-				}
-			}
-			if len(t.Ret) != 1 {
-				return "undecided: unexpected result arity"
-			}
-			if st == k.closed && t.Ret[0].K != ANil {
-				return "closed breaker can reject"
-			}
-			if st == k.open {
-				if r, _, ok := c.findRel(t, cbT+"nextAttempt", "now", 0, -1); ok && r.Hi == -1 && t.Ret[0].K != ANil {
-					return "open breaker rejects after timeout"
-				}
-			}
-			return ""
-		})
+	// (3),(4): the admission relation (closed never rejects, open+elapsed admits) — shared with C07
+	c.admissionRule(k, p.Fn("internal/circuitbreaker", "CircuitBreaker", "beforeRequest"))
 	after := p.Fn("internal/circuitbreaker", "CircuitBreaker", "afterRequest")
 	c.traceRule("open-sets-next-attempt", "circuitbreaker.(*CircuitBreaker).afterRequest", after, c.cbSpec(false),
 		"each transition to Open stores nextAttempt = now + timeout",
@@ -737,4 +601,189 @@ func c08Budget(c *Ctx) {
 		"nothing relates max_requests to success_threshold and no transition replenishes the half-open trial budget: a configuration with max_requests < success_threshold (including the default max_requests 0→1 with success_threshold ≥ 2) is accepted and leaves the breaker half-open forever after the first trip",
 		"searched NewCircuitBreaker, setupCircuitBreaker, validateCircuitBreaker for a comparison of the two settings",
 		"searched beforeRequest for a setState / requestCount reset on the requestCount ≥ maxRequests edge")
+}
+
+// cbScanT is what a path has established about the breaker state at some point.
+type cbScanT struct {
+	state    int64          // known state constant, -1 unknown
+	not      map[int64]bool // states excluded in the current knowledge
+	lock     string         // "", "lock:R", "lock:W" — innermost lock held
+	secStart int            // index where the current critical section started
+}
+
+// cbScan replays state tests and stores up to index upto.  Knowledge obtained before a lock was
+// released is kept (a snapshot), but is overridden by later tests.
+func (c *Ctx) cbScan(t *Trace, upto int) cbScanT {
+	sc := cbScanT{state: -1, not: map[int64]bool{}}
+	for i := 0; i < upto && i < len(t.Items); i++ {
+		it := t.Items[i]
+		switch {
+		case strings.HasPrefix(it.Label, "lock:"):
+			sc.lock = it.Label
+			sc.secStart = i
+		case strings.HasPrefix(it.Label, "unlock:"):
+			sc.lock = ""
+		case strings.HasPrefix(it.Label, "store state := k:"):
+			var v int64
+			fmt.Sscanf(strings.TrimPrefix(it.Label, "store state := k:"), "%d", &v)
+			sc.state = v
+			sc.not = map[int64]bool{}
+		case strings.HasPrefix(it.Label, "store state := "):
+			sc.state = -1
+			sc.not = map[int64]bool{}
+		}
+		if _, isIf := it.Instr.(*ssa.If); isIf {
+			if o, ok := c.condRel(it).Orient(cbT+"state", ""); ok && o.Y == "" && o.Pred == "" && o.Lo == o.Hi {
+				if o.Neq {
+					if sc.state == o.Lo {
+						sc.state = -1
+					}
+					sc.not[o.Lo] = true
+				} else {
+					sc.state = o.Lo
+					sc.not = map[int64]bool{}
+				}
+			}
+		}
+	}
+	return sc
+}
+
+// admissionRule checks beforeRequest against the admission relation of the property, judged on the
+// state the path last established (the authoritative test under the write lock when there is one).
+func (c *Ctx) admissionRule(k cbConsts, before *ssa.Function) {
+	sp := c.cbSpec(true)
+	c.traceRule("admission-relation", "circuitbreaker.(*CircuitBreaker).beforeRequest", before, sp,
+		"closed admits; open rejects until nextAttempt<now, then moves to half-open under the write lock with counters zeroed; half-open admits iff requestCount < maxRequests; the error names the state",
+		func(t *Trace) string {
+			if len(t.Ret) != 1 || t.Ret[0].K == AUnknown || (t.Ret[0].K == ANonNil && t.Ret[0].G == nil) {
+				return "undecided: beforeRequest returns an error value that is neither nil nor a package error"
+			}
+			admitted := t.Ret[0].K == ANil
+			errName := ""
+			if t.Ret[0].G != nil {
+				errName = t.Ret[0].G.Name()
+			}
+			sc := c.cbScan(t, len(t.Items))
+			closedLike := sc.state == k.closed || (sc.state == -1 && sc.not[k.open] && sc.not[k.half])
+			// last nextAttempt-vs-now test and last budget test
+			var na, budget Rel
+			naAt, budgetAt := -1, -1
+			for i, it := range t.Items {
+				if _, isIf := it.Instr.(*ssa.If); !isIf {
+					continue
+				}
+				r := c.condRel(it)
+				if o, ok := r.Orient(cbT+"nextAttempt", "now"); ok {
+					na, naAt = o, i
+				}
+				if o, ok := r.Orient(cbT+"requestCount", cbT+"maxRequests"); ok {
+					budget, budgetAt = o, i
+				}
+			}
+			if naAt >= 0 && !(na.Lo == negInf && na.Hi == -1) && !(na.Lo == 0 && na.Hi == posInf) {
+				return "retry test is not nextAttempt < now: " + na.String()
+			}
+			if budgetAt >= 0 && !(budget.Lo == 0 && budget.Hi == posInf) && !(budget.Lo == negInf && budget.Hi == -1) {
+				return "half-open limit is not requestCount ≥ maxRequests: " + budget.String()
+			}
+			// transitions performed on this path
+			for i, it := range t.Items {
+				if !strings.HasPrefix(it.Label, "store state := ") {
+					continue
+				}
+				if it.Label != "store state := k:"+itoa(k.half) {
+					return "beforeRequest moves the breaker to a state other than half-open: " + it.Label
+				}
+				pre := c.cbScan(t, i)
+				if pre.lock != "lock:W" {
+					return "open→half-open transition outside the write lock"
+				}
+				if pre.state != k.open {
+					return "transition to half-open from a state that is not (re-checked to be) Open under the write lock"
+				}
+				chk := false
+				for j := pre.secStart; j < i; j++ {
+					if o, ok := c.condRel(t.Items[j]).Orient(cbT+"nextAttempt", "now"); ok && o.Lo == negInf && o.Hi == -1 {
+						chk = true
+					}
+				}
+				if !chk {
+					return "open→half-open transition does not re-check nextAttempt < now under the write lock"
+				}
+				z1, z2 := false, false
+				for j := i + 1; j < len(t.Items) && !strings.HasPrefix(t.Items[j].Label, "unlock:"); j++ {
+					z1 = z1 || t.Items[j].Label == "store requestCount := k:0"
+					z2 = z2 || t.Items[j].Label == "store successCount := k:0"
+				}
+				if !z1 || !z2 {
+					return "entering half-open does not zero requestCount and successCount in the same critical section"
+				}
+			}
+			// an authoritative 'open and elapsed' must lead to the transition
+			for i, it := range t.Items {
+				if o, ok := c.condRel(it).Orient(cbT+"nextAttempt", "now"); ok && o.Hi == -1 {
+					pre := c.cbScan(t, i)
+					if pre.lock == "lock:W" && pre.state == k.open && t.Index("store state := k:"+itoa(k.half), i) < 0 {
+						return "breaker found open with the timeout elapsed under the write lock but not moved to half-open"
+					}
+				}
+			}
+			switch {
+			case admitted && sc.state == k.open:
+				return "request admitted while the breaker is open"
+			case admitted && sc.state == k.half:
+				if budgetAt < 0 || budget.Hi != -1 {
+					return "half-open breaker admits without requestCount < maxRequests"
+				}
+			case admitted && closedLike:
+				// closed admits; only the failure-window reset may be stored
+				for i, it := range t.Items {
+					if it.Label == "store failureCount := k:0" {
+						var r Rel
+						ok := false
+						for j := 0; j < i; j++ {
+							if r2, _, ok2 := c.findRel(t, "add(fld:"+cbT+"lastFailureTime,fld:"+cbT+"interval)", "now", j, j+1); ok2 {
+								r, ok = r2, true
+							}
+						}
+						if !ok || !(r.Lo == negInf && r.Hi == -1) {
+							return "failure window reset not guarded by lastFailure + interval < now: " + r.String()
+						}
+						if c.cbScan(t, i).lock != "lock:W" {
+							return "failure window reset outside the write lock"
+						}
+					} else if strings.HasPrefix(it.Label, "store ") {
+						return "closed admission modifies " + it.Label
+					}
+				}
+			case admitted:
+				return "undecided: request admitted in a breaker state the path did not establish"
+			case errName == "ErrTooManyRequests":
+				if sc.state != k.half {
+					return "ErrTooManyRequests returned outside half-open"
+				}
+				if budgetAt < 0 || budget.Lo != 0 {
+					return "half-open breaker rejects below maxRequests"
+				}
+			case errName == "ErrCircuitBreakerOpen":
+				if sc.state == k.closed {
+					return "closed breaker rejects a request"
+				}
+				if sc.state == k.half {
+					return "half-open breaker rejects with the open error"
+				}
+				if sc.state == k.open && naAt >= 0 && na.Hi == -1 {
+					// elapsed according to the last test: only legitimate if that test was a stale snapshot
+					// (a later write-locked section re-established Open without the timeout having elapsed)
+					last := c.cbScan(t, len(t.Items))
+					if !(last.secStart > naAt) {
+						return "open breaker still rejects after the timeout elapsed"
+					}
+				}
+			default:
+				return "undecided: rejection with an unexpected error " + errName
+			}
+			return ""
+		})
 }
